@@ -10,12 +10,13 @@ def fmt(box):
     return ' '.join(f'{lo:02X}' if lo == hi else f'{lo:02X}-{hi:02X}' for lo, hi in box)
 
 
-def run(ck, tu, site='src/utf8_decode.c:utf8_decode_next'):
-    ck.analysed(functions=[site, 'src/utf8_decode.c:get', 'src/utf8_decode.c:cont', 'src/utf8_decode.c:utf8_decode_init', 'src/utf8_decode.c:utf8_decode_at_byte'])
+def run(ck, tu, site='src/utf8_decode.c:utf8_decode_next', ids=('O3.1a', 'O3.1b', 'O3.1c'), fld='u->'):
+    unit = site.split(':')[0]
+    ck.analysed(functions=[site, f'{unit}:get', f'{unit}:cont', f'{unit}:utf8_decode_init', f'{unit}:utf8_decode_at_byte'])
     cells, nrun = D.analyse(tu)
-    d1 = ck.rule('O3.1a', 'every byte box the decoder accepts is inside RFC 3629 table of well-formed sequences (no overlong, surrogate, > U+10FFFF, stray/missing continuation)', 10)
-    d2 = ck.rule('O3.1b', 'every well-formed sequence is accepted, whatever follows it, consuming exactly its own bytes', 9)
-    d3 = ck.rule('O3.1c', 'returned value is the code point (box corners), < 0x80 exactly for single bytes; END only at the end; one ERROR value for everything else; the_byte = index of the first byte', 10)
+    d1 = ck.rule(ids[0], 'every byte box the decoder accepts is inside RFC 3629 table of well-formed sequences (no overlong, surrogate, > U+10FFFF, stray/missing continuation)', 10)
+    d2 = ck.rule(ids[1], 'every well-formed sequence is accepted, whatever follows it, consuming exactly its own bytes', 9)
+    d3 = ck.rule(ids[2], 'returned value is the code point (box corners), < 0x80 exactly for single bytes; END only at the end; one ERROR value for everything else; the_byte = index of the first byte', 10)
     accepted = {}          # (avail, n) -> [box]
     end_vals = set(); err_vals = set()
     for avail, box, lo, hi, gets, byte_ok, node in cells:
@@ -55,12 +56,12 @@ def run(ck, tu, site='src/utf8_decode.c:utf8_decode_next'):
     summary = {'end': list(end_vals)[0] if end_vals else None, 'error': list(err_vals)[0][0] if err_vals else None}
     # bookkeeping functions
     e, ps = cfgpaths.summarise(tu, 'utf8_decode_at_byte')
-    okb = len(ps) == 1 and ps[0].ret() and ps[0].ret()[1] == 'u->the_byte'
-    d3.instance('src/utf8_decode.c:utf8_decode_at_byte', ok=okb, wclass='at_byte', what='utf8_decode_at_byte does not return the_byte')
+    okb = len(ps) == 1 and ps[0].ret() and ps[0].ret()[1] == fld + 'the_byte'
+    d3.instance(f'{unit}:utf8_decode_at_byte', ok=okb, wclass='at_byte', what='utf8_decode_at_byte does not return the_byte')
     e, ps = cfgpaths.summarise(tu, 'utf8_decode_init')
-    want = {'u->the_index': '0', 'u->the_input': 'p', 'u->the_length': 'length', 'u->the_byte': '0'}
+    want = {fld + 'the_index': '0', fld + 'the_input': 'p', fld + 'the_length': 'length', fld + 'the_byte': '0'}
     oki = len(ps) == 1 and all(ps[0].last_set(k) is not None and ps[0].last_set(k)[2] == v for k, v in want.items())
-    d3.instance('src/utf8_decode.c:utf8_decode_init', ok=oki, wclass='init', what='utf8_decode_init does not set index 0 / input / length / the_byte 0', detail=ps[0].text() if ps else None)
+    d3.instance(f'{unit}:utf8_decode_init', ok=oki, wclass='init', what='utf8_decode_init does not set index 0 / input / length / the_byte 0', detail=ps[0].text() if ps else None)
     ck.sample({'decoder_cells': len(cells), 'abstract_runs': nrun, 'accepted_boxes': sum(len(v) for v in accepted.values()),
                'example_cells': [{'avail': c[0], 'bytes': fmt([c[1][j] for j in range(min(c[0], 4))]), 'value': [c[2], c[3]], 'consumed': c[4]} for c in cells[:3]]})
     ck.mc(len(cells), nrun)
